@@ -307,7 +307,7 @@ Theorem prefix_flat e k sid vs p q :
 Proof.
   intros Hwf Hk Hfl Hn Hty HE. unfold decode, decode_into.
   replace (4 * length p + 64)%nat with (S (4 * length p + 63)) by lia.
-  destruct (struct_priors1 e (4 * length p + 63) sid (zero_struct e sid) (zero_struct_zlike e k sid Hwf Hk)) as (ps & -> & Hps).
+  destruct (struct_priors1 e k (4 * length p + 63) sid (zero_struct e sid) Hwf ltac:(lia)) as (ps & -> & Hps).
   rewrite encode_fields in HE. inversion Hty as [| | | | |? ? Hvs]; subst; [discriminate|].
   pose proof (prefix_fields e (fields_of e sid) vs ps p q None (S (4 * length p + 63)) Hvs Hfl (wf_asc k e Hwf sid) Hps HE ltac:(lia)) as H.
   destruct H as [->|(i & h & Hi & Hp & Hh & Ho & ->)]; [now left|].
@@ -405,19 +405,43 @@ Proof.
   change (tBYTE =? tBYTE) with true. cbv iota. rewrite read_count_len by assumption.
   rewrite read_slice_truncated by lia. reflexivity.
 Qed.
-(* a LIST member whose count announces more elements than bytes are left: refused before anything is decoded
-   (the model's DHuge: the generated code allocates first and fails on the first missing element - C05 finding) *)
+(* a LIST member whose count announces more elements than bytes are left (every element takes at least one
+   byte): refused before anything is allocated or decoded *)
 Theorem inflated_list_member e f tag req x prior lo J n r :
   junk_ok lo tag J -> tag < 256 -> (length r < n)%nat -> N.of_nat n < 2147483648 ->
   let field := head tLIST tag ++ w_int32 (Z.of_nat n) 0 ++ r in
   (2 * length (ser_fields J ++ field) + 3 <= f)%nat ->
-  dec_var (S f) e tag req (TVec x) prior (ser_fields J ++ field) = DHuge.
+  dec_var (S f) e tag req (TVec x) prior (ser_fields J ++ field) = DErr.
 Proof.
   intros HJ Htag Hl Hn field Hf. subst field. rewrite dec_var_vec. rewrite (seek_junk J f lo) by assumption.
   destruct (fuel_sub J _ f Hf) as (f' & -> & _). rewrite seek_first by (reflexivity || assumption).
   change (tLIST =? tLIST) with true. cbv iota. rewrite read_count_len by assumption.
   destruct (Z.of_nat n <? 0)%Z eqn:E1; [lia|].
   destruct (Z.of_nat (length r) <? Z.of_nat n)%Z eqn:E2; [reflexivity|lia].
+Qed.
+(* a MAP member whose count announces more entries than half the bytes left (every entry takes at least two) *)
+Theorem inflated_map_member e f tag req kt vt prior lo J n r :
+  junk_ok lo tag J -> tag < 256 -> (length r < 2 * n)%nat -> N.of_nat n < 2147483648 ->
+  let field := head tMAP tag ++ w_int32 (Z.of_nat n) 0 ++ r in
+  (2 * length (ser_fields J ++ field) + 3 <= f)%nat ->
+  dec_var (S f) e tag req (TMap kt vt) prior (ser_fields J ++ field) = DErr.
+Proof.
+  intros HJ Htag Hl Hn field Hf. subst field. rewrite dec_var_map. unfold skip_to. rewrite (seek_junk J f lo) by assumption.
+  destruct (fuel_sub J _ f Hf) as (f' & -> & _). rewrite seek_first by (reflexivity || assumption).
+  change (tMAP =? tMAP) with true. cbv iota. rewrite read_count_len by assumption.
+  replace ((Z.of_nat n <? 0)%Z || (Z.of_nat (length r) / 2 <? Z.of_nat n)%Z) with true by lia. reflexivity.
+Qed.
+(* a fixed-array member whose count exceeds the array's length: refused (the pinned code indexed past the end) *)
+Theorem array_count_member e f tag req len x prior lo J n r :
+  junk_ok lo tag J -> tag < 256 -> (len < n)%nat -> N.of_nat n < 2147483648 ->
+  let field := head tLIST tag ++ w_int32 (Z.of_nat n) 0 ++ r in
+  (2 * length (ser_fields J ++ field) + 3 <= f)%nat ->
+  dec_var (S f) e tag req (TArr len x) prior (ser_fields J ++ field) = DErr.
+Proof.
+  intros HJ Htag Hl Hn field Hf. subst field. rewrite dec_var_arr. rewrite (seek_junk J f lo) by assumption.
+  destruct (fuel_sub J _ f Hf) as (f' & -> & _). rewrite seek_first by (reflexivity || assumption).
+  change (tLIST =? tLIST) with true. cbv iota. rewrite read_count_len by assumption.
+  replace ((Z.of_nat n <? 0)%Z || (Z.of_nat len <? Z.of_nat n)%Z) with true by lia. reflexivity.
 Qed.
 
 (* struct level: the members before it encoded normally, then a string member whose length exceeds what is left *)
@@ -447,4 +471,6 @@ Qed.
 Print Assumptions inflated_string_member.
 Print Assumptions inflated_bytes_member.
 Print Assumptions inflated_list_member.
+Print Assumptions inflated_map_member.
+Print Assumptions array_count_member.
 Print Assumptions inflated_string_rejected.
